@@ -4,7 +4,7 @@
 From Coq Require Import String List NArith ZArith Bool.
 From Coq Require Import Strings.Byte.
 From Flocq Require Import Core IEEE754.BinarySingleNaN.
-From GoBT Require Import lib.Bytes lib.Hex lib.Parse lib.VarInt lib.Sha256 model.Tx model.Amount model.Json corr.Corr.
+From GoBT Require Import lib.Bytes lib.Hex lib.Parse lib.VarInt lib.Sha256 model.Tx model.Amount model.Json model.JsonScripts corr.Corr.
 Import ListNotations.
 Local Open Scope N_scope.
 
@@ -28,7 +28,11 @@ Inductive case :=
        (node : onode_out) (node_back_sats : N) (node_back_lock : string)
 (** a UTXO: library document, node document (amount bits), fields read back from each *)
 | CUtxo (u : gutxo) (lib : utxo_j) (lib_back : utxo_j) (node_txid : string) (node_vout : N) (node_spk : string)
-        (node_bits : N) (node_back : utxo_j).
+        (node_bits : N) (node_back : utxo_j)
+(** what the node document says about one script: asm / reqSigs / type of an output carrying it, asm of an input
+    carrying it as unlocking script - against bscript's inspection code as modelled (model/JsonScripts.v
+    [script_info_bscript]: the instance the "any script" theorems of Properties/C16.v are about) *)
+| CNodeScript (s : bytes) (asm : string) (reqsigs : N) (type : string) (in_asm : string).
 
 Definition trivial_info (_ : bytes) : jres (string * N * string) := JOk (EmptyString, 0, EmptyString).
 
@@ -145,6 +149,17 @@ Definition check (c : case) : bool :=
           (f64_bits (un_amount nj) =? nbits) &&
           match node_unmarshal_utxo zero_utxo nj with JOk u' => utxo_j_eqb (utxo_fields u') node_back | _ => false end
       | _, _ => false
+      end
+  | CNodeScript s asm n ty in_asm =>
+      match node_script_docs s with
+      | JOk (o, i) =>
+          match no_spk o, ni_scriptsig i with
+          | Some spk, Some ss =>
+              String.eqb (spk_asm spk) asm && (spk_reqsigs spk =? n) && String.eqb (spk_type spk) ty &&
+              String.eqb (spk_hex spk) (hex_of s) && String.eqb (ss_asm ss) in_asm && String.eqb (ss_hex ss) (hex_of s)
+          | _, _ => false
+          end
+      | _ => false
       end
   end.
 
